@@ -267,6 +267,8 @@ def model_check(work, module, cfg=None, workers=NCPU, heap="6g", timeout=1700, c
 # ---------------------------------------------------------------- evidence
 
 def write_evidence(pid, tier, seed, level, coverage, assumptions, wall, violations):
+    if os.environ.get("VERIF_NOEVIDENCE"):
+        return        # runs against a seeded / mutated copy of the tree must not overwrite the evidence
     os.makedirs(os.path.join(VERIF, "evidence"), exist_ok=True)
     ev = {"property_id": pid, "tier": tier, "seed": int(seed), "level": level,
           "coverage": coverage, "assumptions": assumptions, "wall_s": round(wall, 2),
